@@ -45,8 +45,10 @@ class Ghost(object):
 
 
 class LoopSpec(object):
-    def __init__(self, invariant=None, label="inv", mutates=()):
-        self.invariant, self.label, self.mutates = invariant, label, tuple(mutates)
+    def __init__(self, invariant=None, label="inv", mutates=(), variant=None):
+        """variant (while loops only): an integer term over the loop context that is >= 0 whenever the body is entered and
+        strictly smaller after every iteration that goes round again (obligation inv-variant: the loop terminates)"""
+        self.invariant, self.label, self.mutates, self.variant = invariant, label, tuple(mutates), variant
 
 
 class Contract(object):
